@@ -78,7 +78,7 @@ def witnesses(tier, seed):
     # the comparisons |a_ij| > |a_kj|), every result cell is a case tree, and A*X - I == 0 == X*A - I is decided in every case
     for t in ('f64', 'f32'):
         for strat in ('SimpleInvPiv', 'SimpleLUPiv', 'BlockLUPiv'):
-            for n in ([1, 2, 3] if quick else [1, 2, 3, 4]):
+            for n in [1, 2, 3]:   # n = 4 exceeds the case-split budget (24 pivot orders x 4x4 Laurent polynomials): measured, dropped
                 if t == 'f32' and n > (2 if quick else 3):
                     continue
                 w = mk(t, n, strat); w.family = 'inverse.' + strat + '.pivoted'; w.extra['max_ms'] = 400000
